@@ -135,13 +135,17 @@ def st_sort_terms(draw, cols, total_bias=True, max_terms=3, depth=1, restricted=
     if total_bias and draw(st.booleans()):
         perm = draw(st.permutations(cols))
         return tuple((("ref", t), draw(st.booleans())) for t in perm)
-    return tuple(
+    terms = tuple(
         draw(
             st.lists(
                 st.tuples(st_expr(cols, depth, need_ref=True, restricted=restricted), st.booleans()), min_size=1, max_size=max_terms
             )
         )
     )
+    if draw(st.integers(0, 7)) == 0:
+        # a constant term (a bare positive integer literal) ahead of the real ones: it orders nothing
+        terms = ((("lit", draw(st.integers(1, 3))), draw(st.booleans())),) + terms[: max_terms - 1]
+    return terms
 
 
 @st.composite
